@@ -43,6 +43,8 @@ type Outcome struct {
 	HandoverViol    []string
 	GapViol         []string
 	HandoversSeen   int
+	HandoverViol2   []string // judged with the harness' own scrape counts
+	IndependentHandovers int
 	Err             string
 	FaultsApplied   int
 }
@@ -125,8 +127,14 @@ func Run(sc Scenario, root string, rseed int64) *Outcome {
 	note := func(f string, a ...interface{}) { out.Trace = append(out.Trace, fmt.Sprintf(f, a...)) }
 	prev := w.Snapshot()
 	note("start %s", prev)
-	// bookkeeping for the closed-loop hand-over rule
-	type pend struct{ src int }
+	// bookkeeping for the closed-loop hand-over rule, with the harness' OWN scrape counts:
+	// key "target/srcShard" -> counts at the moment the move began
+	type moveRec struct {
+		srcGen, dst, dstGen   int
+		srcAtBegin, dstAtBegin int
+	}
+	moves := map[string]*moveRec{}
+	mkey := func(id, src int) string { return fmt.Sprintf("%d/%d", id, src) }
 	step := func(label string, c int, rounds func(shard int) int) (CycleObs, Snapshot, bool) {
 		before := w.Snapshot()
 		co := w.Cycle()
@@ -220,12 +228,63 @@ func Run(sc Scenario, root string, rseed int64) *Outcome {
 				}
 			}
 		}
+		// moves that end in this cycle, judged with the harness' own counts
+		for k, mv := range moves {
+			var id, si int
+			fmt.Sscanf(k, "%d/%d", &id, &si)
+			gone := si >= len(after.Shards) || w.Gen(si) != mv.srcGen
+			if !gone {
+				if e, still := after.Shards[si][id]; still {
+					if e.State != "in_transfer" {
+						delete(moves, k) // restored to normal: the move was cancelled
+					}
+					continue
+				}
+			}
+			delete(moves, k)
+			if gone {
+				continue // the source pod itself went away
+			}
+			discovered := false
+			for _, d := range w.Discovered() {
+				if d == id {
+					discovered = true
+				}
+			}
+			if !discovered {
+				continue
+			}
+			srcScrapes := w.ScrapedBy(si, id) - mv.srcAtBegin
+			dstScrapes := -1
+			if mv.dst < w.NumShards() && w.Gen(mv.dst) == mv.dstGen {
+				dstScrapes = w.ScrapedBy(mv.dst, id) - mv.dstAtBegin
+			}
+			out.IndependentHandovers++
+			if srcScrapes < 3 || (dstScrapes >= 0 && dstScrapes < 3) {
+				out.HandoverViol2 = append(out.HandoverViol2, fmt.Sprintf("%s %d: target %d left source shard %d after the source really scraped it %d times and the destination shard %d %d times since the move began (harness counts at the target farm)", label, c, id, si, srcScrapes, mv.dst, dstScrapes))
+			}
+		}
 		// moves begun
 		for si, m := range after.Shards {
 			for id, e := range m {
 				if e.State == "in_transfer" && si < len(before.Shards) {
 					if b, ok := before.Shards[si][id]; ok && b.State == "" {
 						out.Moves++
+						// the destination: the shard that lists the target in normal state now and did not before
+						for dj, m2 := range after.Shards {
+							if dj == si {
+								continue
+							}
+							if e2, ok := m2[id]; ok && e2.State == "" {
+								had := false
+								if dj < len(before.Shards) {
+									_, had = before.Shards[dj][id]
+								}
+								if !had {
+									moves[mkey(id, si)] = &moveRec{srcGen: w.Gen(si), dst: dj, dstGen: w.Gen(dj), srcAtBegin: w.ScrapedBy(si, id), dstAtBegin: w.ScrapedBy(dj, id)}
+								}
+							}
+						}
 					}
 				}
 			}
